@@ -18,6 +18,7 @@ import (
 	"fmt"
 	"os"
 	"reflect"
+	"runtime/debug"
 	"sort"
 	"strings"
 	"sync"
@@ -1801,18 +1802,23 @@ func (h *elH) opAck(drop bool) {
 				aba = true
 			}
 		}
-		if aba && os.Getenv("VF_EL_DELIVER_ABA") != "" {
+		if (aba || o.restored) && os.Getenv("VF_EL_DELIVER_ABA") != "" {
 			// demonstration switch (findings/E8.md): deliver it anyway
 			h.label("aba-delayed-ack-delivered")
 			aba = false
-		}
-		if aba {
+		} else if aba {
 			// A delayed acknowledgement whose (index,term) pair is back in the
 			// log although a different entry was written in between (A-B-A).
 			// The engine acknowledges every Update before the next step, so no
 			// replica can produce this; steer around it and count.
 			h.st.Count("excluded-aba-delayed-ack", 1)
 			h.logf("ack of Update stable=%d/t%d withheld (A-B-A, excluded)", o.stableIdx, o.stableTerm)
+			drop = true
+		} else if o.restored {
+			// same shape with a snapshot restore as the "B": the Update predates
+			// a restore and its last pair re-entered the log afterwards.
+			h.st.Count("excluded-delayed-ack-across-restore", 1)
+			h.logf("ack of Update stable=%d/t%d withheld (matches again after a restore, excluded)", o.stableIdx, o.stableTerm)
 			drop = true
 		}
 	}
@@ -1937,9 +1943,6 @@ var elOps = []elOp{
 
 func elRunCase(t *rapid.T, st *vfhelp.Stats) {
 	h := elNewHarness(t, st)
-	defer func() {
-		_ = h.db.RemoveNodeData(h.shardID, elReplicaID)
-	}()
 	h.checkAll("init")
 	nOps := rapid.IntRange(1, 48).Draw(t, "nOps")
 	var canon bytes.Buffer
@@ -1991,6 +1994,8 @@ func elQuietLogs() {
 
 func TestVF_C19_EntryLog(t *testing.T) {
 	elQuietLogs()
+	// the in-memory file system of the store lives on the Go heap: collect less often
+	defer debug.SetGCPercent(debug.SetGCPercent(400))
 	st := vfhelp.NewStats("TestVF_C19_EntryLog",
 		"generated call sequences (leader append/tryCommit, follower Replicate with conflicts at any uncommitted position incl. lower-term and re-surfacing forks, heartbeat commit, InstallSnapshot restore, engine Update cycles GetUpdate->SaveRaftState->ApplySnapshot->LogReader.Append->Compact+RemoveEntriesTo->Commit, delayed/dropped FIFO acknowledgements, RSM apply lag, local snapshots, tick/quiesce resize) on the real entryLog over the real LogReader over sharded Pebble on MemFS, every answer compared with a slice model after every step; non-trivial = an Update was persisted, a conflicting append truncated the log at or below its last index, the index was occupied again, and then the OLD Update was acknowledged")
 	defer st.Flush()
